@@ -164,9 +164,65 @@ def run(ctx):
            '' if ok else 'in the merge loop `top is limit` is first evaluated after `top = simplify(top)`: a registered clause with a single item is replaced by that item and never '
            'recognised, so merging continues into the enclosing clauses (the filter of a generator is absorbed by the conditional expression of its element)', node=wl[0],
            expected='test `top is limit` on the clause before simplify() is applied to it')
+    # ---------------------------------------------------------------- FREEVAR
+    # reader and writer must agree on how an instruction argument names a variable.  For LOAD_DEREF / LOAD_CLOSURE / MAKE_CELL ... (dis.hasfree) CPython
+    # 3.11+ numbers the "fast locals plus" array: parameters and locals first -- a parameter captured by a nested generator is a cell but keeps its slot
+    # there -- then the remaining cells, then the free variables.  The decoding statements of get_instructions for `op in hasfree` are interpreted
+    # (q.concrete_eval, this interpreter's version flags) on sample code objects, for every hasfree instruction the compiler actually emitted, and
+    # compared with CPython's own answer (dis / code._varname_from_oparg).
+    import dis, sys as _sys
+    from ..q import concrete_eval, Unknown
+    gi = repo.fn(DC, 'Decompiler.get_instructions')
+    branch = None
+    for st in ast.walk(gi.node):
+        if isinstance(st, ast.If) and norm(st.test) == 'op in hasfree': branch = st
+    ctx.need(branch is not None, 'C03-FREEVAR: the `op in hasfree` branch of get_instructions was not found')
+    pre = {}
+    for st in walk_no_nested(gi.node):                                   # locals defined before the loop from the code object
+        if isinstance(st, ast.Assign) and len(st.targets) == 1 and isinstance(st.targets[0], ast.Name) and st.targets[0].id in ('free', 'localsplus', 'code', 'co_code'):
+            pre[st.targets[0].id] = st.value
+    def samples():
+        y = 1; z = 2; T = [1]
+        fs = [lambda s, q: s.a == y and q.b == z and any(t for t in T if t == s.a),             # parameter s is captured: a cell among the locals
+              lambda s: any(t for t in T if t == s.a) and s.b == y,
+              lambda a, b, c: [x for x in T if x == b and (lambda: (a, z))()],
+              lambda p: p.a == y and p.b == z]                                              # free variables only
+        return [f.__code__ for f in fs]
+    flags = {'PY311': _sys.version_info >= (3, 11), 'PY312': _sys.version_info >= (3, 12), 'PY313': _sys.version_info >= (3, 13), 'PY310': _sys.version_info >= (3, 10)}
+    checked = 0; wrong = []
+    for code in samples():
+        base = dict(flags); base['code'] = code
+        try:
+            for nm in ('free', 'localsplus'):
+                if nm in pre: base[nm] = tuple(concrete_eval(pre[nm], base))
+        except Unknown:
+            wrong.append('the definition of a name table could not be read'); break
+        for ins in dis.get_instructions(code):
+            if ins.opcode not in dis.hasfree: continue
+            env = dict(base); env['oparg'] = ins.arg
+            def run_block(stmts):
+                for s_ in stmts:
+                    if isinstance(s_, ast.If): run_block(s_.body if concrete_eval(s_.test, env) else s_.orelse)
+                    elif isinstance(s_, ast.AugAssign) and isinstance(s_.target, ast.Name):
+                        env[s_.target.id] = concrete_eval(ast.BinOp(left=ast.Name(id=s_.target.id, ctx=ast.Load()), op=s_.op, right=s_.value), env)
+                    elif isinstance(s_, ast.Assign) and len(s_.targets) == 1 and isinstance(s_.targets[0], ast.Name): env[s_.targets[0].id] = concrete_eval(s_.value, env)
+                    else: raise Unknown
+            try:
+                run_block(branch.body)
+                got = env['arg'][0]
+            except (Unknown, KeyError, IndexError, TypeError):
+                got = '<unreadable>'
+            checked += 1
+            if got != ins.argval: wrong.append('%s %d in `%s`: pony reads %r, CPython means %r' % (ins.opname, ins.arg, code.co_name + str(code.co_varnames), got, ins.argval))
+    ctx.floor('C03-FREEVAR', checked, 6, 'cell/free-variable instructions of the sample code objects')
+    ctx.ob('C03-FREEVAR.variable-named-by-a-cell-instruction-is-the-one-the-compiler-meant', gi, branch, not wrong,
+           '' if not wrong else 'the decoder and the compiler disagree about variable names: %s -- the reconstructed expression uses other variables than the source' % '; '.join(wrong[:3]),
+           node=branch)
 
 
 MUTANTS = [
+    dict(id='C03-free', file='pony/orm/decompiling.py', fn='Decompiler.get_instructions', old="                        arg = [localsplus[oparg]]", new="                        arg = [free[oparg - len(code.co_varnames)]]", expect='C03-FREEVAR'),
+    dict(id='C03-free2', file='pony/orm/decompiling.py', fn='Decompiler.get_instructions', old="                        arg = [localsplus[oparg]]", new="                        arg = [(code.co_varnames + tuple(c for c in code.co_cellvars if c not in code.co_varnames) + code.co_freevars)[oparg]]", expect='C03-FREEVAR', benign=True),
     dict(id='C03-l1', file='pony/orm/decompiling.py', fn='Decompiler.process_target', old="            reached_limit = top is limit  # simplify() may replace a one-item clause with its item\n            top = simplify(top)\n            if reached_limit or top is limit:", new="            top = simplify(top)\n            if top is limit:", expect='C03-LIMIT'),
     dict(id='C03-f1', file='pony/orm/decompiling.py', fn='Decompiler.formatted_value', old="        return ast.JoinedStr([ast.FormattedValue(value=value, conversion=conversion, format_spec=format_spec)])", new="        return ast.FormattedValue(value=value, conversion=conversion, format_spec=format_spec)", expect='C03-FSTR'),
     dict(id='C03-m1', file='pony/orm/decompiling.py', fn='Decompiler.conditional_jump_none_impl', old='        decompiler.targets.setdefault(endpos, clause)', new='        decompiler.targets[endpos] = clause', expect='C03-TARGETS'),
